@@ -52,6 +52,9 @@ type world struct {
 	out  *hx.Out
 	rng  *rand.Rand
 	mode string // "c13" | "c07"
+	govReady bool // gov parameters for oracle-list proposals written (govblock_test.go)
+	// oracles the oracle-list proposal executed by the gov end-blocker of the NEXT block takes offline (not a slash)
+	inBlockRemoved map[string]bool
 	chain string // the bridged chain this world drives (all eight crosschain modules share the keeper code)
 	tron  bool   // tron-style external addresses, checkpoints and signatures
 	env   bool   // every op is followed by a real FinalizeBlock; batches come from the real pool; external events are voted in
@@ -958,6 +961,12 @@ func (w *world) opBlock(dt int64) {
 		if !found || now.Online {
 			continue
 		}
+		if w.inBlockRemoved[o.OracleAddress] {
+			if now.SlashTimes != o.SlashTimes {
+				w.violate(fmt.Sprintf("penalty without a missed signing: oracle %d was removed by the governance proposal executed in this block and its slash_times moved from %d to %d", id, o.SlashTimes, now.SlashTimes))
+			}
+			continue
+		}
 		w.out.Nontrivial("block:slashed")
 		missed, all := false, true
 		for _, x := range sn.objs {
@@ -1296,7 +1305,11 @@ func (w *world) sequence(length int) {
 				k := rng.Intn(n)
 				list = append(list[:k], list[k+1:]...)
 			}
-			w.opGov(list)
+			if rng.Intn(3) == 0 {
+				w.opGovInBlock(list) // as the message of a passed proposal, inside the gov end-blocker of a real block
+			} else {
+				w.opGov(list)
+			}
 		case r < 53:
 			w.opNudge()
 		case r < 58:
@@ -1461,8 +1474,13 @@ func (w *world) lifecycle(variant int) {
 			}
 		}
 	case 6: // unbond transactions around the maturity of the unbonding entry: completion-1, =completion (inside the block,
-		// before the staking end-blocker pays out), the block after
-		w.opGov(all[1:])
+		// before the staking end-blocker pays out), the block after; every second time the removal is the message of a passed
+		// proposal executed by the gov end-blocker
+		if w.rng.Intn(2) == 0 {
+			w.opGovInBlock(all[1:])
+		} else {
+			w.opGov(all[1:])
+		}
 		w.opBlock(5)
 		w.confirmRound(dil, 1)
 		w.opUnbondNear(0, -1)
